@@ -14,7 +14,9 @@ Every mutating path through `internal/store/dir.go` is a sequence of the steps b
             renamed) temporary name - two calls without effect that the trace shows;
 * `cancel`  `Cancel` / a failed `Verify`: `Close`, `Remove` of the temporary file;
 * `layout`  `repoInit`: `os.WriteFile(oci-layout)` *in place*;
-* `mkdir`, `rm`: `MkdirAll` and `Remove` (blob delete, `_uploads`, the empty-repository removal).
+* `mkdir`, `rm`: `MkdirAll` and `Remove` (blob delete, `_uploads`, the empty-repository removal);
+* `touch`   `blobCreate` with an expected digest whose blob exists (repair F38): `Chtimes` of the blob file - the age
+            the collector looks at is refreshed, no name and no content changes.
 -/
 namespace Fs
 
@@ -27,6 +29,7 @@ inductive Step where
   | commit (r n a h : Nat) (mkAlg : Bool)
   | cancel (r n : Nat)
   | rm (p : Path)
+  | touch (r a h : Nat)
   deriving DecidableEq, Repr
 
 def Step.ops : Step → List FsOp
@@ -40,6 +43,7 @@ def Step.ops : Step → List FsOp
         [.rename (.upload r n) (.blob r a h), .close (.upload r n), .remove (.upload r n)])
   | .cancel r n => [.close (.upload r n), .remove (.upload r n)]
   | .rm p => [.remove p]
+  | .touch r a h => [.chtimes (.blob r a h)]
 
 /-- the one non-temporary file a step may change -/
 def Step.target : Step → Option Path
@@ -111,6 +115,7 @@ theorem run_step_agree (s : Step) (d : Disk) : Agree (run s.ops d) (s.eff d) := 
     simp only [Step.ops, Step.eff, run_cons, run_nil, FsOp.apply]
     cases q <;> simp_all [Disk.set, Path.isTemp]
   | rm p => simp [Step.ops, Step.eff, FsOp.apply]
+  | touch r a h => simp [Step.ops, Step.eff, FsOp.apply]
 
 /-- **Crash states of one step.**  On every file a recovery can read, a crash inside a step leaves the state before
 the step or the state after it - except for the in-place write of `oci-layout`, which may be cut short. -/
@@ -214,6 +219,11 @@ theorem step_crash (s : Step) {d c : Disk} (h : Crash s.ops d c) :
     · subst h; exact Or.inl (Agree.refl _)
     · subst h; exact Or.inl (Agree.refl _)
     · have := crash_nil_inv h; subst this; exact Or.inr (Or.inl (Agree.refl _))
+  | touch r a x =>
+    rcases crash_cons_inv h with h | ⟨k, h⟩ | h
+    · subst h; exact Or.inl (Agree.refl _)
+    · subst h; exact Or.inl (Agree.refl _)
+    · have := crash_nil_inv h; subst this; exact Or.inl (Agree.refl _)
 
 /-- **Crash states of a request.**  A crash anywhere inside a sequence of steps leaves, on every file a recovery can
 read, the state at a *step boundary* - or a boundary state in which the `oci-layout` being written in place by the
